@@ -219,7 +219,9 @@ MatchesOf(pat, stmts) ==
 IdealMatch(pat, stmts) == \E m \in MatchesOf(pat, stmts) : m.from = 1 /\ m.atstart
 IdealFull(pat, stmts) == \E m \in MatchesOf(pat, stmts) : m.from = 1 /\ m.to = Len(stmts) /\ m.whole
 
-ApiCases == [stmts : UNION {[1..n -> StmtKinds] : n \in 1..MaxStmts}, pat : PatKinds, feol : {"lf", "none"}]
+\* lead: what precedes the first statement (nothing, a blank line, a comment line): the module body need not start at offset 0
+ApiCases == [stmts : UNION {[1..n -> StmtKinds] : n \in 1..MaxStmts}, pat : PatKinds, feol : {"lf", "none"},
+             lead : {"none", "blank", "comment"}]
 InitApi == l \in ApiCases
 DumpApi == PrintT(<<"@@J", ToJson([case |-> l, count |-> Cardinality(MatchesOf(l.pat, l.stmts)),
                                     matches |-> SetToSeq(MatchesOf(l.pat, l.stmts)),
